@@ -10,10 +10,10 @@ from .. import msk
 KINDS = [
     "naive-last", "naive-mean", "naive-drift", "naive-seasonal-last", "naive-seasonal-mean", "poly", "sm-adapter",
     "reduce-direct", "reduce-recursive", "reduce-multioutput", "reduce-dirrec",
-    "ensemble", "pipeline", "stacking", "multiplexer", "gridsearch",
+    "ensemble", "pipeline", "pipeline-deseason", "stacking", "multiplexer", "gridsearch",
 ]
 REQUIRED_FH = ("reduce-direct", "reduce-multioutput", "reduce-dirrec", "stacking")
-SHIFTABLE = ("naive-last", "naive-mean", "naive-drift", "naive-seasonal-last", "naive-seasonal-mean", "poly", "reduce-direct", "reduce-recursive", "reduce-multioutput", "reduce-dirrec")
+SHIFTABLE = ("pipeline-deseason", "naive-last", "naive-mean", "naive-drift", "naive-seasonal-last", "naive-seasonal-mean", "poly", "reduce-direct", "reduce-recursive", "reduce-multioutput", "reduce-dirrec")
 
 
 def is_nan(x):
@@ -40,6 +40,16 @@ class C03(Harness):
         return [{"name": k, "kind": k, "cost": 3 if k.startswith("reduce") else 1} for k in KINDS]
 
     def overrides(self, kind, cell):
+        if cell["kind"] == "pipeline-deseason":
+            holder = self.__dict__.setdefault("_hold", {})
+
+            def seasonal_decompose(z, model=None, period=None, filt=None, two_sided=True, extrapolate_trend=0):
+                # the seasonal component of the decomposed stretch by position (sigma[i mod sp]); the labels play no role
+                W = holder[kind]["W"]
+                sig = holder[kind]["sigma"]
+                return types.SimpleNamespace(seasonal=W.pd.Series([sig[i % len(sig)] for i in range(len(z))], index=z.index))
+
+            return {"statsmodels.tsa.seasonal": types.SimpleNamespace(seasonal_decompose=seasonal_decompose)}
         if cell["kind"] in ("poly",) and kind == "sym":
             return {
                 "sklearn.linear_model": types.SimpleNamespace(LinearRegression=msk.LinearRegression),
@@ -68,12 +78,18 @@ class C03(Harness):
         inp["as_unsorted_index"] = bool(ctx.fresh_bool("as_unsorted_index")) if K > 1 else False
         inp["range_index"] = bool(ctx.fresh_bool("range_index"))
         inp["update_params"] = (not inp["range_index"]) if nb else True  # (tied to the index kind to keep the path count)
+        # without re-estimation the update may also re-send (revised) observations that end *before* the data seen so far:
+        # the cutoff is the last time point of the data passed to update
+        # (forecasters whose window is the whole training series cannot forecast from an earlier cutoff: left out)
+        inp["resend"] = bool(nb) and not inp["update_params"] and nb < n and k not in ("naive-seasonal-mean", "naive-drift")
         if k in REQUIRED_FH:
             inp["fh_in_fit"] = True
         else:
             inp["fh_in_fit"] = bool(ctx.fresh_bool("fh_in_fit"))
         if inp["absolute"] and nb and inp["fh_in_fit"]:
             ctx.assume(False)  # an absolute horizon fixed at fit would fall in-sample after the update
+        if k == "pipeline-deseason":
+            inp["sigma"] = fresh_reals(ctx, "sig", 2)
         if k.startswith("reduce"):
             inp["wl"] = choice("wl", 1, 2)
             if inp["wl"] + inp["fh"][-1] > n:
@@ -145,6 +161,10 @@ class C03(Harness):
             return red.make_reduction(Reg(), strategy=k.split("-")[1], window_length=inp["wl"])
         if k == "ensemble":
             return W.load("sktime.forecasting.compose._ensemble").EnsembleForecaster([("a", Member(p=1)), ("b", NF("last"))])
+        if k == "pipeline-deseason":
+            self.__dict__.setdefault("_hold", {})[W.kind] = {"W": W, "sigma": inp["sigma"]}
+            DES = W.load("sktime.transformations.series.detrend._deseasonalize").Deseasonalizer
+            return W.load("sktime.forecasting.compose._pipeline").TransformedTargetForecaster([("d", DES(sp=2)), ("f", NF("last"))])
         if k == "pipeline":
             T, _ = make_transformer(W, log)
             return W.load("sktime.forecasting.compose._pipeline").TransformedTargetForecaster([("t", T(tag=1)), ("f", NF("last"))])
@@ -172,7 +192,8 @@ class C03(Harness):
             return pd.Series(list(vals), index=idx)
 
         y = ser(inp["y"], origin)
-        final_cut = origin + n - 1 + nb
+        ustart = (origin + n - 1 - nb) if inp.get("resend") else (origin + n)
+        final_cut = ustart + nb - 1 if nb else origin + n - 1
         steps = list(reversed(inp["fh"])) if inp.get("as_unsorted_index") else list(inp["fh"])
         mk = (lambda v: pd.Index(v)) if inp.get("as_unsorted_index") else (lambda v: np.array(v))
         if inp["absolute"]:
@@ -186,7 +207,7 @@ class C03(Harness):
             f.fit(y)
         out["cutoff_fit"] = S(f.cutoff)
         if nb:
-            f.update(ser(inp["u"], origin + n), update_params=inp.get("update_params", True))
+            f.update(ser(inp["u"], ustart), update_params=inp.get("update_params", True))
             out["cutoff_upd"] = S(f.cutoff)
         p = f.predict() if inp["fh_in_fit"] else f.predict(fh)
         out["index"] = L(p.index)
@@ -249,7 +270,7 @@ class C03(Harness):
                 continue
             o = out[tag]
             P.eq("cutoff-after-fit", o["cutoff_fit"], origin + n - 1)
-            c = origin + n - 1 + nb
+            c = (origin + n - 2) if (inp.get("resend") and nb) else (origin + n - 1 + nb)
             if nb:
                 P.eq("cutoff-after-update", o["cutoff_upd"], c)
             P.check("one-value-per-step", len(o["index"]) == len(fh) and len(o["values"]) == len(fh))
